@@ -52,7 +52,7 @@ func (o *c18Obj) Act(id int64) int64 { return o.act(id) }
 
 func (c *C18Case) text() string {
 	var b strings.Builder
-	b.WriteString("rule \"conc\" \"d\" salience 1\nbegin\n  S(@name)\n  lo = mkobj()\n  pre = 5\n")
+	b.WriteString("rule \"conc\" \"d\" salience 1\nbegin\n  S(@name)\n  lo = mkobj()\n  pre = 5\n  pre0 = 0\n")
 	for bi, blk := range c.Blocks {
 		b.WriteString("  conc {\n")
 		for _, ch := range blk {
@@ -66,6 +66,8 @@ func (c *C18Case) text() string {
 			switch ch.Kind {
 			case "local":
 				fmt.Fprintf(&b, "    a%d = %s\n", ch.ID, call)
+			case "local-expr": // the right-hand side also reads a local assigned before the block
+				fmt.Fprintf(&b, "    a%d = %s + pre0\n", ch.ID, call)
 			case "field":
 				fmt.Fprintf(&b, "    H.F%d = %s\n", ch.ID%8, call)
 			case "nested": // distinct fields of a nested struct held by value; the children meet at a barrier just before they store
@@ -131,7 +133,7 @@ func (c *C18Case) text() string {
 				continue
 			}
 			switch ch.Kind {
-			case "local", "lit":
+			case "local", "lit", "local-expr":
 				fmt.Fprintf(&b, "  rd(%d, a%d)\n", ch.ID, ch.ID)
 			case "field":
 				fmt.Fprintf(&b, "  rd(%d, H.F%d)\n", ch.ID, ch.ID%8)
@@ -175,7 +177,7 @@ func init() {
 				}
 				for k := 0; k < n; k++ {
 					id++
-					kind := []string{"local", "local", "field", "func", "method", "three", "method-local", "three-local", "func-local-arg", "lit", "lit", "nested", "nestedp"}[uni(t, fmt.Sprintf("kind%d_%d", bi, k), 0, 12)]
+					kind := []string{"local", "local", "field", "func", "method", "three", "method-local", "three-local", "func-local-arg", "lit", "lit", "nested", "nestedp", "local-expr", "local-expr"}[uni(t, fmt.Sprintf("kind%d_%d", bi, k), 0, 14)]
 					if pct(t, fmt.Sprintf("alllit%d", bi), 8) {
 						kind = "lit" // blocks made of literal assignments only
 					}
@@ -379,7 +381,7 @@ func checkC18(ci interface{}, x *Ctx) {
 				fail("child-count:"+ch.Kind, "child %s (%s) of block %d ran %d times, want exactly once", id, ch.Kind, bi, ran)
 				return
 			}
-			if ch.Kind != "lit" && (ch.Fails == "" || (ch.Fails == "type" && (ch.Kind == "local" || ch.Kind == "field" || ch.Kind == "nested" || ch.Kind == "nestedp"))) {
+			if ch.Kind != "lit" && (ch.Fails == "" || (ch.Fails == "type" && (ch.Kind == "local" || ch.Kind == "local-expr" || ch.Kind == "field" || ch.Kind == "nested" || ch.Kind == "nestedp"))) {
 				d := seqOf["D:"+id]
 				if len(d) != 1 {
 					fail("child-unfinished:"+ch.Kind, "child %s (%s) of block %d had not finished when Execute returned (the block must wait for all of its statements)", id, ch.Kind, bi)
@@ -408,7 +410,7 @@ func checkC18(ci interface{}, x *Ctx) {
 				return
 			}
 			for _, ch := range blk {
-				if ch.Kind != "local" && ch.Kind != "field" && ch.Kind != "lit" && ch.Kind != "nested" && ch.Kind != "nestedp" {
+				if ch.Kind != "local" && ch.Kind != "local-expr" && ch.Kind != "field" && ch.Kind != "lit" && ch.Kind != "nested" && ch.Kind != "nestedp" {
 					continue
 				}
 				if ch.Kind == "nested" && expect[bi] >= 2 {
@@ -511,7 +513,7 @@ func checkC18MultiEngine(c *C18Case, x *Ctx, env *schedEnv, tg *schedTarget, tex
 				return
 			}
 			switch ch.Kind {
-			case "local", "lit", "field", "nested", "nestedp":
+			case "local", "local-expr", "lit", "field", "nested", "nestedp":
 				if cnt["RD:"+id] != n {
 					fail("read-count/multi-engine", "the read of child %s's value after block %d ran %d times in %d executions", id, bi, cnt["RD:"+id], n)
 					return
